@@ -1,5 +1,5 @@
 """hypercorn/utils.py: pure helpers."""
-from pyvc.contracts import cls, fn
+from pyvc.contracts import specfn, cls, fn
 
 U = "hypercorn.utils:"
 
@@ -9,11 +9,26 @@ fn(U + "suppress_body", params={"method": "str", "status_code": "int"}, returns=
 
 # C01.filter: host taken from :authority (else the last host header, else empty); every other
 # non-pseudo header kept in order.  Requires what h2/h3 guarantee: no empty header name.
+# kept_hdrs(hs, n): the header lines among the first n that are neither pseudo-headers nor host,
+# in order; last_raw(hs, n, name): raw value of the last of the first n lines named `name` (b'' if
+# none); seen_hdr(hs, n, name): some line among the first n is named `name`
+specfn("kept_hdrs", ["hs:hdrs", "n:int"], rec="n", returns="hdrs", base="[]",
+       step="kept_hdrs(hs, n - 1) + ite(hs[n - 1][0] != b':authority' and hs[n - 1][0] != b'host' and hs[n - 1][0][0] != b':'[0], [hs[n - 1]], [])")
+specfn("last_raw", ["hs:hdrs", "n:int", "name:bstr"], rec="n", returns="bstr", base="b''",
+       step="ite(hs[n - 1][0] == name, hs[n - 1][1], last_raw(hs, n - 1, name))")
+specfn("seen_hdr", ["hs:hdrs", "n:int", "name:bstr"], rec="n", returns="bool", base="False",
+       step="hs[n - 1][0] == name or seen_hdr(hs, n - 1, name)")
 fn(U + "filter_pseudo_headers", params={"headers": "hdrs"}, returns="hdrs", modifies=[], effect="atomic",
    requires=[("filter.pre.nonempty-names", "names_nonempty(headers)")],
-   loops={0: {"locals": {"authority": "opt bstr", "host": "bstr"},
-              "invariant": [("filter.loop.first-is-host", "len(filtered_headers) >= 1")]}},
-   ensures=[("C01.filter.host-first", "len(result) >= 1 and result[0][0] == b'host'", "C01")],
+   loops={0: {"locals": {"authority": "opt bstr", "host": "bstr", "filtered_headers": "hdrs"},
+              "invariant": [("filter.loop.first-is-host", "len(filtered_headers) >= 1"),
+                            ("C01.filter.loop", "filtered_headers == [(b'host', b'')] + kept_hdrs(headers, _i) and host == last_raw(headers, _i, b'host') "
+                             "and (authority is None) == (not seen_hdr(headers, _i, b':authority')) and implies(authority is not None, authority == last_raw(headers, _i, b':authority'))", "C01")]}},
+   ensures=[("C01.filter.host-first", "len(result) >= 1 and result[0][0] == b'host'", "C01"),
+            # the whole result: host from :authority (else the last host header, else empty), then
+            # every other non-pseudo header in the client's order
+            ("C01.filter.all", "result == [(b'host', last_raw(headers, len(headers), b':authority') if seen_hdr(headers, len(headers), b':authority') else last_raw(headers, len(headers), b'host'))] "
+             "+ kept_hdrs(headers, len(headers))", "C01")],
    props=("C01",))
 
 # Application-supplied header list -> validated list.  Callers see: either a list of (bytes, bytes)
